@@ -62,7 +62,9 @@ theorem popRaw_ne_panic (size : Int) (bs : Bytes) (s : String) : popRaw size bs 
   · intro h; cases h
   · split
     · intro h; cases h
-    · exact readN_ne_panic _ _ _
+    · split
+      · intro h; cases h
+      · exact readN_ne_panic _ _ _
 
 theorem popMessage_ne_panic (bs : Bytes) (s : String) : popMessage bs ≠ .panic s := by
   unfold popMessage
